@@ -20,6 +20,8 @@ from vf import util
 from vf import findings as F
 
 NPROC = min(16, os.cpu_count() or 4)
+EVID_DIR = os.environ.get("VERIF_EVIDENCE_DIR") or os.path.join(util.VERIF, "evidence")
+REPLAY_DIR = os.environ.get("VERIF_REPLAY_DIR") or os.path.join(util.VERIF, "replays")
 
 
 def ensure_deps():
@@ -75,7 +77,8 @@ def run_shards(prop, tier, seed, plan, only=None):
                     hs = 0 if s == 0 else (seed * 7919 + s * 104729 + 1) % 4294967295
                 hashseeds[s] = hs
                 out = os.path.join(tmp, f"shard{s}.jsonl")
-                cmd = [util.PY, "-B", "-m", "vf.shard", prop, tier, str(seed), str(s), str(nshards), out]
+                cmd = [util.PY, "-B", "-m", "vf.shard", prop, tier, str(seed), str(s), str(nshards), out,
+                       "--keep", os.path.join(REPLAY_DIR, prop)]
                 if only is not None:
                     cmd += ["--only", str(only)]
                 logf = open(os.path.join(tmp, f"shard{s}.log"), "w")
@@ -192,8 +195,8 @@ def write_evidence(prop, tier, seed, P, m, hashseeds, wall, known_hit, n_new, in
         "coverage": cov, "assumptions": list(P.ASSUMPTIONS), "wall_s": round(wall, 2),
         "violations": int(n_new),
     }
-    os.makedirs(os.path.join(util.VERIF, "evidence"), exist_ok=True)
-    path = os.path.join(util.VERIF, "evidence", f"{prop}.json")
+    os.makedirs(EVID_DIR, exist_ok=True)
+    path = os.path.join(EVID_DIR, f"{prop}.json")
     with open(path, "w") as f:
         json.dump(ev, f, indent=1, default=str)
     return path
@@ -207,11 +210,11 @@ def check(prop, tier, only=None, quiet=False):
         return 2
     P = importlib.import_module(f"vf.props.{prop.lower()}")
     plan = P.plan(tier)
-    ev_path = os.path.join(util.VERIF, "evidence", f"{prop}.json")
+    ev_path = os.path.join(EVID_DIR, f"{prop}.json")
     if os.path.exists(ev_path) and only is None:
         os.remove(ev_path)
     if only is None:
-        shutil.rmtree(os.path.join(util.VERIF, "replays", prop), ignore_errors=True)
+        shutil.rmtree(os.path.join(REPLAY_DIR, prop), ignore_errors=True)
     records, status, hashseeds = run_shards(prop, tier, seed, plan, only=only)
     wall = time.monotonic() - t0
     m = merge(prop, tier, seed, P, records, hashseeds, wall)
